@@ -399,7 +399,7 @@ def run_program(ctx, prog, replay_run=False, warm=False, rever=False):
     import gm_tasks21 as T
     from redun.backends.db import Argument, CallNode
     import json
-    case = {"program": prog}
+    case = {"program": prog, "mode": {"replay_run": replay_run, "warm": warm, "rever": rever}}
     with G.instrumented() as (log, watch):
         backend = None
         if warm:
@@ -594,8 +594,10 @@ def replay(ctx, case):
             return (k, fix(x[1]))
         return x
     p = fix(p)
-    print("replay program:", p)
-    got = run_program(ctx, p)
+    mode = c.get("mode") or {}
+    print("replay program:", p, "mode:", mode)
+    ctx.case(key=repr(p), replayed=True)
+    got = run_program(ctx, p, replay_run=bool(mode.get("replay_run")), warm=bool(mode.get("warm")), rever=bool(mode.get("rever")))
     reply = ctx.model("C21", ["eval F " + to_model(p, None)])[0]
     print("model:", parse_model(reply))
     print("impl :", got)
